@@ -151,16 +151,48 @@ Definition process_response (K : nat) (self target : bstr) (qfilter : ainfo -> b
       (filter (fun n => negb (bstr_eqb (ai_id n) self)
                         && (bstr_eqb (ai_id n) target || qfilter n)) l2).
 
+(* filterPeersByIPDiversity (rt_diversity_filter.go:114-164), called with
+   q.maxPeersPerIPGroup = the routing-table diversity filter's maxForTable
+   (query.go:187-194), 0 when no filter is configured.
+   [gm]: the IP group of an address (manet.ToIP + peerdiversity.IPGroupKey, library
+   code outside the repository: an oracle), None when the address has no IP or
+   no group.  A group is over-represented when more than [limit] distinct peer
+   ids have an address in it; every entry whose id is among the peers of an
+   over-represented group is removed. *)
+Definition id_tag (n : ainfo) : N := b_tag (ai_id n).
+Definition peer_groups (gm : addr -> option N) (n : ainfo) : list N :=
+  flat_map (fun a => match gm a with Some g => [g] | None => [] end) (ai_addrs n).
+Definition in_group (gm : addr -> option N) (g : N) (n : ainfo) : bool :=
+  existsb (N.eqb g) (peer_groups gm n).
+Definition group_size (gm : addr -> option N) (l : list ainfo) (g : N) : nat :=
+  length (nodup N.eq_dec (map id_tag (filter (in_group gm g) l))).
+Definition over_group (gm : addr -> option N) (limit : nat) (l : list ainfo) (g : N) : bool :=
+  (limit <? group_size gm l g)%nat.
+Definition to_remove (gm : addr -> option N) (limit : nat) (l : list ainfo) : list N :=
+  map id_tag (filter (fun n => existsb (over_group gm limit l) (peer_groups gm n)) l).
+Definition removed_by (gm : addr -> option N) (limit : nat) (l : list ainfo) (n : ainfo) : bool :=
+  existsb (N.eqb (id_tag n)) (to_remove gm limit l).
+Definition filter_diversity (gm : addr -> option N) (limit : nat) (l : list ainfo) : list ainfo :=
+  match limit with O => l | _ => filter (fun n => negb (removed_by gm limit l n)) l end.
+(* the [div] argument of [process_response] for a configured limit: the filter
+   sees the capped list *)
+Definition diversity (gm : addr -> option N) (limit : nat) (K : nat) (l : list ainfo)
+  : option (ainfo -> bool) :=
+  match limit with O => None | _ => Some (removed_by gm limit (cap_closer K l)) end.
+
 (* a lookup step for the three kinds of query function: the closer peers of the
    RPC result are what queryPeer receives; an RPC error marks the peer
    unreachable and nothing is heard *)
-Definition lookup_heard (K : nat) (self target : bstr) (qfilter : ainfo -> bool)
-           (rp : reply) : res (option (list bstr)) :=
+Definition lookup_heard_div (K : nat) (self target : bstr) (qfilter : ainfo -> bool)
+           (gm : addr -> option N) (limit : nat) (rp : reply) : res (option (list bstr)) :=
   r <- get_closest_peers rp ;;
   match r with
   | PErr _ => Ok None
-  | PPeers l => Ok (Some (process_response K self target qfilter None l))
+  | PPeers l => Ok (Some (process_response K self target qfilter (diversity gm limit K l) l))
   end.
+Definition lookup_heard (K : nat) (self target : bstr) (qfilter : ainfo -> bool)
+           (rp : reply) : res (option (list bstr)) :=
+  lookup_heard_div K self target qfilter (fun _ => None) 0 rp.
 
 (* ---- the request/response exchange on a stream -------------------------- *)
 (* what happens on the stream after the request was written *)
